@@ -42,8 +42,11 @@ enum Obs {
     Panic(String),
 }
 
-fn eval_obs(text: &str) -> Obs {
-    let files = vec![("/l/m.ledger".to_string(), "2024/01/01 t\n    A  1 X\n    A  1 Y\n    A  1 Q\n    B\n".to_string())];
+/// `declared`: the ledger declares a display format without decimals for every commodity; the value of an expression is
+/// exact whatever is declared (a declared format is how reports print balances, not a property of arithmetic)
+fn eval_obs(text: &str, declared: bool) -> Obs {
+    let decl = if declared { "commodity X\n    format 1 X\n\ncommodity Y\n    format 1 Y\n\ncommodity Q\n    format 1 Q\n\n" } else { "" };
+    let files = vec![("/l/m.ledger".to_string(), format!("{}2024/01/01 t\n    A  1 X\n    A  1 Y\n    A  1 Q\n    B\n", decl))];
     let text = text.to_string();
     let r = guarded(move || {
         let arena = bumpalo::Bump::new();
@@ -114,7 +117,8 @@ pub fn replay(_idx: usize, rec: &Value) -> Value {
             Ok(Ok(())) => {}
         }
         // eval
-        judge("eval", text, &uses["eval"], &want_map(&uses["eval"]["a"]), eval_obs(text), &mut viols);
+        judge("eval", text, &uses["eval"], &want_map(&uses["eval"]["a"]), eval_obs(text, false), &mut viols);
+        judge("eval_declared_format", text, &uses["eval"], &want_map(&uses["eval"]["a"]), eval_obs(text, true), &mut viols);
         // posting amount
         let w = want_map(&uses["amount"]["a"]);
         judge("amount", text, &uses["amount"], &w, ledger_obs(&format!("2024/01/01 t\n    A  {}\n    B\n", text), 0), &mut viols);
